@@ -781,6 +781,9 @@ pub fn explore_c07(unit_seed: u64, _tier: Tier) -> UnitReport {
         if p.published_box_checked {
             rep.count("published-box-checks");
         }
+        if p.extension_checked {
+            rep.count("witness-extension-checks(compiled model admits the planted point)");
+        }
         if p.linearize_ok {
             rep.count("linearize:ok");
         }
